@@ -3940,10 +3940,10 @@ def fix_import_spacing(source: str) -> str:
         else:
             continue
 
-        indentation_level = formatting.indentation_level(
-            whitespace_between + source[i2_start:i2_end]
-        )
-        spacing = "\n" * correct_newline_count + " " * indentation_level
+        # The statement keeps the indentation of its first line. The least indented of all its lines
+        # may be a line of a string, or of a bracket that is continued in an unusual place.
+        indentation = whitespace_between.rpartition("\n")[2]
+        spacing = "\n" * correct_newline_count + indentation
         spacing = re.sub(r"\n +\n", "\n\n", spacing)
         replacement_range = core.Range(i1_end, i2_start)
 
